@@ -27,7 +27,9 @@ THEOREMS = [
 RULE = (
     "as C01, with clusters of estimates around one ground truth (70 %), exact duplicates and symmetric offsets (exact "
     "ties), unknown-labelled estimates and FP-labelled ground truth over-represented, numeric type variants of all "
-    "numeric parameters (int / numpy scalar types / arrays, same values) in 35 % of the cases; a case is non-trivial when both "
+    "numeric parameters (int / numpy scalar types / arrays, same values) in 35 % of the cases; C01's grid and random variation of "
+    "the path-selecting fields (object kind x label family x uuids x evaluation task x uuid_matching_first; ROI-less cases are "
+    "outside C02: no scores) is run with C02's oracle as well; a case is non-trivial when both "
     "lists are non-empty; the independent greedy is compared on the cases whose candidate scores are pairwise different"
 )
 TRUSTED = base.TRUSTED + [
